@@ -79,6 +79,21 @@ theorem prange_schedule_independent (l : Loop) (hl : l.raceFree = true) (fx : St
   raceFree_eq_sequential prog (desc_raceFree l hl fx prog hconf) n hn m0 s h loc
 
 
+
+/-- **The descriptor check is tight.** If a descriptor is rejected because of an array access — every site that is
+    not an array access (private scalars, reductions, read-only methods, pure calls) passes on its own — then some loop
+    that conforms to the descriptor has a race: the check never rejects an access pattern that is safe for all the
+    loops it describes. (Together with `desc_raceFree_sound`: on descriptors whose non-array sites are harmless,
+    `Loop.raceFree l = true` iff every conforming loop is race free.) -/
+theorem desc_raceFree_tight (l : Loop) (hother : ∀ a ∈ l.accs, a.arr? = none → l.siteOk a = true)
+    (h : l.raceFree = false) :
+    ∃ (fx : String → Nat) (prog : Nat → List Ev), ConformsTo l fx prog ∧ ¬ RaceFree prog :=
+  desc_raceFree_tight_aux l hother h
+
+/-- non-vacuity: the pinned D-iteration descriptor is rejected because of `fluid[j]` only -/
+example : diterationLoop.raceFree = false ∧
+    (diterationLoop.accs.all fun a => a.arr?.isSome || diterationLoop.siteOk a) = true := by decide
+
 /-- **The first `prange` loop of `push_pagerank` conforms to its descriptor**, for every reversed CSR structure
     (any `rev_indptr`, `rev_indices`, well formed or not) and any arithmetic. -/
 theorem pushInit_conforms (n : Nat) (ip ix : List Nat) (acc scale : List ParFor.Val → ParFor.Val) :
